@@ -75,55 +75,68 @@ func chainGoal(st *State, g *Term) *Term {
 		return g
 	}
 	a, b := g.Args[0], g.Args[1]
-	cur := b
-	for steps := 0; steps < 400; steps++ {
+	// equalities of the path condition, as an adjacency list
+	eqs := map[string][]*Term{}
+	terms := map[string]*Term{}
+	for _, p := range st.pc {
+		if p.Op == "=" && p.Args[0].Sort == SSeq {
+			for _, side := range []int{0, 1} {
+				k := p.Args[side].Key()
+				eqs[k] = append(eqs[k], p.Args[1-side])
+				terms[k] = p.Args[side]
+			}
+		}
+	}
+	seen := map[string]bool{}
+	frontier := []*Term{b}
+	if g.Name == "extends" {
+		frontier = []*Term{a}
+		a, b = b, a // walk from the new content back to the old one: new == old ++ piece
+	}
+	for steps := 0; len(frontier) > 0 && steps < 2000; steps++ {
+		cur := frontier[0]
+		frontier = frontier[1:]
+		if seen[cur.Key()] {
+			continue
+		}
+		seen[cur.Key()] = true
 		if Same(cur, a) {
 			return True
 		}
-		found := false
-		for _, p := range st.pc {
-			if p.Op != "=" || p.Args[0].Sort != SSeq {
-				continue
+		sg := Segs(cur)
+		if g.Name == "suffixof" {
+			// cur == piece ++ next : next is a suffix of cur
+			if len(sg) >= 2 && sg[0].Op == "var" && strings.HasPrefix(sg[0].Name, "piece!") {
+				frontier = append(frontier, Cat(sg[1:]...))
 			}
-			var other *Term
-			if Same(p.Args[0], cur) {
-				other = p.Args[1]
-			} else if Same(p.Args[1], cur) {
-				other = p.Args[0]
-			} else if g.Name == "extends" {
-				// looking for  X == cur ++ piece
-				for _, side := range []int{0, 1} {
-					sg := Segs(p.Args[side])
-					cs := Segs(cur)
-					if len(sg) == len(cs)+1 && sg[len(sg)-1].Op == "var" && strings.HasPrefix(sg[len(sg)-1].Name, "piece!") && p.Args[1-side].Op == "var" {
-						ok := true
-						for i := range cs {
-							if !Same(cs[i], sg[i]) {
-								ok = false
-							}
-						}
-						if ok {
-							cur = p.Args[1-side]
-							found = true
-						}
-					}
-				}
-				if found {
-					break
-				}
-				continue
-			} else {
-				continue
+			// any structured description  X ++ next  also makes next a suffix
+			if len(sg) >= 2 {
+				frontier = append(frontier, sg[len(sg)-1])
 			}
-			sg := Segs(other)
-			if g.Name == "suffixof" && len(sg) >= 2 && sg[0].Op == "var" && strings.HasPrefix(sg[0].Name, "piece!") {
-				cur = Cat(sg[1:]...)
-				found = true
-				break
+			if cur.Op == "app" && cur.Name == "drop" {
+				// drop(v, n) is a suffix of v: continue from everything known about drop(v,n) itself
+			}
+		} else {
+			// cur == old ++ piece : old is a prefix of cur
+			if len(sg) >= 2 && sg[len(sg)-1].Op == "var" && strings.HasPrefix(sg[len(sg)-1].Name, "piece!") {
+				frontier = append(frontier, Cat(sg[:len(sg)-1]...))
+			}
+			if len(sg) >= 2 {
+				frontier = append(frontier, Cat(sg[:len(sg)-1]...))
 			}
 		}
-		if !found {
-			break
+		for _, o := range eqs[cur.Key()] {
+			frontier = append(frontier, o)
+		}
+		// v == ... where v's suffix/prefix is reached through drop / take terms defined on it
+		for k, t := range terms {
+			_ = k
+			if g.Name == "suffixof" && t.Op == "app" && t.Name == "drop" && Same(t.Args[0], cur) {
+				frontier = append(frontier, t)
+			}
+			if g.Name == "extends" && t.Op == "app" && t.Name == "take" && Same(t.Args[0], cur) {
+				frontier = append(frontier, t)
+			}
 		}
 	}
 	return g
